@@ -580,6 +580,52 @@ func c10Deletions(c *Ctx, m *shimModel) {
 	}
 	c.Floor("R6.deletions", n, 2, "deletion / replacement sites of the table")
 	if remove != nil {
+		// removing makes it disappear: every successful return of the removal helper was preceded by the deletion of
+		// the key's in-memory entry, or by the failed-lookup edge of a test that the entry is absent
+		through := map[ssa.Instruction]bool{}
+		for _, a := range w.FieldAccesses(m.Server, m.fCerts) {
+			if a.Fn != remove {
+				continue
+			}
+			switch a.Kind {
+			case "mapdelete":
+				through[a.Instr] = true
+			case "mapread":
+				// comma-ok lookup: the successor taken when ok is false
+				lk, isLk := a.Instr.(*ssa.Lookup)
+				if !isLk || !lk.CommaOk {
+					continue
+				}
+				okv := extractOfV(lk, 1)
+				for _, b := range remove.Blocks {
+					if len(b.Instrs) == 0 {
+						continue
+					}
+					if ifi, isIf := b.Instrs[len(b.Instrs)-1].(*ssa.If); isIf && okv != nil {
+						cond := ifi.Cond
+						neg := false
+						if u, isNot := cond.(*ssa.UnOp); isNot && u.Op == token.NOT {
+							cond, neg = u.X, true
+						}
+						if cond == okv {
+							absent := b.Succs[1]
+							if neg {
+								absent = b.Succs[0]
+							}
+							if len(absent.Instrs) > 0 {
+								through[absent.Instrs[0]] = true
+							}
+						}
+					}
+				}
+			}
+		}
+		for _, r := range w.MayBeNilReturns(remove) {
+			if remove.Recover != nil && r.Block() == remove.Recover {
+				continue
+			}
+			c.Check(len(through) > 0 && MustPassFromEntry(remove, r, through), "R6.deletions", "removal helper|success means the in-memory entry is gone", w.Pos(r.Pos()), "every path to this return deletes the entry or found it absent", "the removal helper can report success on a path that neither deleted the key's in-memory entry nor found it absent: a removed hardware certificate stays listed")
+		}
 		// static callers of the removal helper
 		for _, fn := range w.RepoFuncs() {
 			for _, call := range callsIn(fn) {
